@@ -36,7 +36,18 @@ def gen(rng, tier):
     focus = {"task_rules": True, "contention": rng.choice(["high", "mid", "mid", "low"])}
     if rng.random() < 0.6:
         focus.update(comps=True, facilities=True, mainwp=True)
+    hsv_focus = rng.random() < 0.15
+    if hsv_focus:
+        focus.update(solo=True, contention="low", zero_skill=False, fix=False)
     spec = C.forward_spec(rng, tier, focus)
+    if hsv_focus:
+        # several tasks that rank their candidates by the skill for *their own* name, workers that work alone
+        for t_ in spec["model"]["tasks"]:
+            t_["wrule"] = 2
+        for tm_ in spec["model"]["teams"]:
+            for w_ in tm_["workers"]:
+                if rng.random() < 0.5:
+                    w_["solo"] = True
     spec["probe_steps"] = sorted(set(rng.randint(0, 12) for _ in range(3)))
     spec["json"] = rng.random() < 0.2
     if rng.random() < 0.15:
